@@ -51,8 +51,8 @@ class Renderer:
         self.ncmt += 1
         n = self.ncmt
         k = self.rng.randrange(8)
-        word = self.rng.choice(['note', 'x*y', 'a/b', 'TODO:', 'see "q"', "it's", 'if (x) {', '#define', 'é', '\tt', 'a  b', '*/'[:1], '//'])
-        if not self.st['nonascii'] and word == 'é':
+        word = self.rng.choice(['note', 'x*y', 'a/b', 'TODO:', 'see "q"', "it's", 'if (x) {', '#define', 'é', '\tt', 'a  b', '*/'[:1], '//', '\U0001F600'])
+        if not self.st['nonascii'] and word in ('é', '\U0001F600'):
             word = 'e'
         if not self.st['cmt_tab'] and '\t' in word:
             word = 't'
